@@ -69,6 +69,17 @@ Theorem c19_concurrent_partial : forall states pat tf cnt keys Lf k,
   In k keys.
 Proof. exact scan_dynamic_partial. Qed.
 
+(** the same with the hypothesis in DESIGN's words: between two calls every key added, deleted or
+    expired sorts at or after the key at the cursor position (scan_order_stable: the keys below it
+    are the same in both states) *)
+Theorem c19_concurrent_partial_by_order : forall states pat tf cnt keys Lf k,
+  (forall i, 0 <= cnt i) -> (forall st, In st states -> NoDup (map fst (d_data (snd st)))) ->
+  scan_order_stable states pat tf cnt ->
+  scan_dynamic states pat tf cnt = (keys, Some Lf) ->
+  (forall st, In st states -> key_visible (fst st) (snd st) tf k) -> key_matches pat k = true ->
+  In k keys.
+Proof. exact scan_dynamic_partial_order. Qed.
+
 Theorem c19_concurrent_partial_generic : forall A (keyof : A -> bytes) pat cnt lists u Lf x,
   (forall i, 0 <= cnt i) -> prefix_stable keyof pat cnt lists 0 0 ->
   iterate keyof pat cnt lists 0 0 = (u, Some Lf) ->
